@@ -240,4 +240,66 @@ theorem infer_eq_self_of_clean (u : Str) (h1 : domainSplit (cleanedUrl u) = none
   rw [inferOf]
   simp [inferTarget, h1, h2]
 
+/-! ## the cleaned form of a url with a clean literal prefix -/
+
+/-- a prefix the cleaning leaves alone: non-empty, no control character, neither starting nor
+ending with whitespace (decidable: `by decide` for a literal) -/
+def cleanEnds (P : Str) : Bool :=
+  !P.isEmpty && P.all (fun c => !UrlParts.isControlChar c) && !(P.head?.any isSpace) &&
+    !(P.getLast?.any isSpace)
+
+theorem rstrip_prefix (A x : Str) (hne : A ≠ [])
+    (hl : ∀ c, A.getLast? = some c → isSpace c = false) : rstrip (A ++ x) = A ++ rstrip x := by
+  unfold rstrip
+  rw [List.reverse_append, List.dropWhile_append]
+  split
+  · rename_i he
+    have hx : List.dropWhile isSpace x.reverse = [] := by simpa using he
+    rw [hx]
+    have : List.dropWhile isSpace A.reverse = A.reverse := by
+      cases hr : A.reverse with
+      | nil => simp at hr; exact absurd hr hne
+      | cons c cs =>
+        have : A.getLast? = some c := by rw [← List.head?_reverse, hr]; rfl
+        simp [hl c this]
+    rw [this]; simp
+  · simp
+
+theorem stripControl_append (a b : Str) :
+    UrlParts.stripControl (a ++ b) = UrlParts.stripControl a ++ UrlParts.stripControl b := by
+  simp [UrlParts.stripControl, List.filter_append]
+
+theorem mem_of_mem_stripControl {c : Char} {s : Str} (h : c ∈ UrlParts.stripControl s) : c ∈ s :=
+  (List.mem_filter.mp h).1
+
+theorem mem_of_mem_rstrip {c : Char} {s : Str} (h : c ∈ rstrip s) : c ∈ s := by
+  unfold rstrip at h
+  have := (List.dropWhile_sublist isSpace (l := s.reverse)).subset (List.mem_reverse.mp h)
+  exact List.mem_reverse.mp this
+
+/-- behind a clean prefix only the tail is cleaned: its control characters go, and its trailing
+whitespace -/
+theorem cleanedUrl_prefix (P s : Str) (hP : cleanEnds P = true) :
+    cleanedUrl (P ++ s) = P ++ rstrip (UrlParts.stripControl s) := by
+  unfold cleanEnds at hP
+  simp only [Bool.and_eq_true, Bool.not_eq_true', List.all_eq_true] at hP
+  obtain ⟨⟨⟨hne, hctl⟩, hhead⟩, hlast⟩ := hP
+  have hne' : P ≠ [] := by intro e; rw [e] at hne; simp at hne
+  unfold cleanedUrl strip lstrip
+  have e1 : UrlParts.stripControl P = P := by
+    unfold UrlParts.stripControl
+    rw [List.filter_eq_self]; intro c hc; simp [hctl c hc]
+  rw [stripControl_append, e1]
+  have e2 : List.dropWhile isSpace (P ++ UrlParts.stripControl s) = P ++ UrlParts.stripControl s := by
+    cases P with
+    | nil => exact absurd rfl hne'
+    | cons c cs =>
+      have : isSpace c = false := by simpa using hhead
+      simp [this]
+  rw [e2]
+  apply rstrip_prefix _ _ hne'
+  intro c hc
+  rw [hc] at hlast
+  simpa using hlast
+
 end Ural
